@@ -4,7 +4,7 @@ P="$1"; ID="$2"; TIER="${3:-quick}"
 cd /repo || exit 2
 if ! git diff --quiet; then echo "/repo has uncommitted changes"; exit 2; fi
 git apply --3way "$P" 2>/dev/null || git apply "$P" || { echo "patch does not apply"; exit 2; }
-cd /verif && ./check "$ID" --tier "$TIER" 2>/dev/null | grep -v "^  \.\.\." | head -8
+cd /verif && timeout 1500 ./check "$ID" --tier "$TIER" 2>/dev/null | grep -v "^  \.\.\." | head -8
 RC=$?
 cd /repo && git reset -q && git checkout -q -- . && git status --short | grep -v '^??' | head
 exit 0
